@@ -103,7 +103,21 @@ func resetClock(tick int64, jumps [][2]int64) {
 		}
 	}
 	nDue, spawnerReq = 0, -1
+	phaseFired, phaseJumps = 0, 0
 }
+
+// bounds per phase: a ticker that fires every few steps would turn a run into
+// nothing but timer hand-overs, and a periodic timer served by a goroutine of
+// the code under test would keep a deadlocked program's clock jumping for ever
+const (
+	maxPhaseFired = 20000 // then the clock stops advancing with the steps (it still jumps when nobody can run)
+	maxPhaseJumps = 20000 // then nothing pending on the clock counts any more: a deadlock is a deadlock
+)
+
+var (
+	phaseFired, phaseJumps int64
+	ClockSlowed            int64
+)
 
 // startSpawner starts the pristine goroutine that fires timers. Main goroutine
 // only (Init), so that it inherits no task's history.
@@ -282,6 +296,12 @@ func fireDue(me int) bool {
 		return false
 	}
 	TimersFired += int64(n)
+	phaseFired += int64(n)
+	if phaseFired > maxPhaseFired && ClockTick != 0 {
+		clockBase += Steps * ClockTick // freeze the step-driven part at its present value
+		ClockTick = 0
+		ClockSlowed++
+	}
 	nDue = n
 	spawnerReq = me
 	wakeSpawner()
@@ -340,7 +360,7 @@ func workloadAlive(me, kind int) bool {
 //
 //go:norace
 func advanceClock(me, kind int) bool {
-	if !workloadAlive(me, kind) {
+	if !workloadAlive(me, kind) || phaseJumps >= maxPhaseJumps {
 		return false
 	}
 	at := nextEvent()
@@ -350,6 +370,7 @@ func advanceClock(me, kind int) bool {
 	if now := NowNS(); at > now {
 		clockBase += at - now
 		ClockJumps++
+		phaseJumps++
 	}
 	fireDue(fireCaller(me, kind))
 	return true
